@@ -6,6 +6,7 @@ import (
 	"fmt"
 	"math/rand"
 	"os"
+	"path/filepath"
 	"runtime"
 	"sort"
 	"strings"
@@ -35,6 +36,14 @@ func main() {
 	model := fset.String("model", modelPath, "model driver binary")
 	replay := fset.String("replay", "", "replay file")
 	fset.Parse(os.Args[2:])
+	// every path the harness is given is made absolute: the process leaves the directory it was started in
+	for _, p := range []*string{model, out, replay} {
+		if *p != "" && !filepath.IsAbs(*p) {
+			if a, err := filepath.Abs(*p); err == nil {
+				*p = a
+			}
+		}
+	}
 	modelPath = *model
 	defer func() {
 		if scratchRoot != "" {
@@ -52,6 +61,10 @@ func main() {
 	}
 
 	start := time.Now()
+	// the suites run inside a working directory of their own (under the scratch root) that holds sentinel entries:
+	// no case has it as its target directory, so nothing in it may ever change (workdir.go)
+	enterWorkDir()
+	cwdGuard = sub == "c06" || sub == "c07" || sub == "c09"
 	ctx := &Ctx{Tier: *tier, Seed: *seed, Rng: rand.New(rand.NewSource(*seed)), Workers: runtime.NumCPU(), Thorough: *tier == "thorough"}
 	var rep *Report
 	if *replay != "" {
@@ -64,6 +77,17 @@ func main() {
 		}
 		otherUses() // the process has used every entry point before the suite starts
 		rep = fn(ctx)
+	}
+	// whatever the suite did, the working directory of the process is as it was
+	if wd := workDirDiffs(); len(wd) > 0 {
+		switch rep.Property {
+		case "C06", "C07", "C09":
+			rep.Record(map[string]string{"kind": "working-directory", "property": rep.Property}, "working-directory", true, wd)
+		default:
+			rep.Notes = append(rep.Notes, "the working directory of the harness process changed during the suite: "+wd[0].What+" ("+wd[0].Real+")")
+		}
+	} else if *replay == "" {
+		rep.Count("working-directory untouched")
 	}
 	res := map[string]any{
 		"property":            rep.Property,
